@@ -22,6 +22,9 @@ type DialInput struct {
 	Proto     string `json:"proto"` // tcp | udp | other (a local address that is neither)
 	LocalPort int    `json:"local_port"`
 	Wrapped   bool   `json:"wrapped"` // connection wrapped in server.TimeoutConn, as the server does
+	// Before: connections the SAME director instance has dialled for before this one (one
+	// director is shared by all the services and ports that name it); replay repeats them
+	Before []DialInput `json:"before,omitempty"`
 }
 
 type DialObs struct {
@@ -52,11 +55,18 @@ func mkDirector(host string) (director.Director, error) {
 }
 
 func runDial(in DialInput) (DialObs, string) {
-	var ob DialObs
 	d, err := mkDirector(in.Host)
 	if err != nil {
 		hx.Fatal("director: %v", err)
 	}
+	for _, b := range in.Before {
+		runDialOn(d, b)
+	}
+	return runDialOn(d, in)
+}
+
+func runDialOn(d director.Director, in DialInput) (DialObs, string) {
+	var ob DialObs
 	var local net.Addr
 	switch in.Proto {
 	case "tcp":
@@ -155,6 +165,25 @@ func runDialPart(o hx.Opts, r *hx.Rand, e *env, replay *Input) {
 				ins = append(ins, DialInput{Host: h, Proto: p, LocalPort: lports[r.Intn(len(lports))], Wrapped: true})
 			}
 		}
+		// one director instance shared by two or three listening ports: hosts with and without a
+		// port, the connections in every order; each dial must follow its OWN connection's port
+		shared := []string{"127.0.0.1", "127.0.0.2", "localhost", "::1", fmt.Sprintf("127.0.0.1:%d", B), fmt.Sprintf("[::1]:%d", B)}
+		for _, h := range shared {
+			ports := []int{B, e.ports[pNP], e.ports[pRaw]}
+			for rot := 0; rot < 3; rot++ {
+				var before []DialInput
+				for k := 0; k < 2+rot%2; k++ {
+					c := DialInput{Host: h, Proto: []string{"tcp", "udp"}[(k+rot)%2], LocalPort: ports[(k+rot)%3], Wrapped: true}
+					if k == 0 {
+						c.Proto = "tcp"
+					}
+					full := c
+					full.Before = append([]DialInput(nil), before...)
+					ins = append(ins, full)
+					before = append(before, c)
+				}
+			}
+		}
 		for i := 0; i < n; i++ {
 			ins = append(ins, DialInput{Host: hosts[r.Intn(len(hosts))], Proto: r.PickStr([]string{"tcp", "tcp", "udp", "udp", "other"}),
 				LocalPort: lports[r.Intn(len(lports))], Wrapped: r.Chance(3, 4)})
@@ -165,6 +194,9 @@ func runDialPart(o hx.Opts, r *hx.Rand, e *env, replay *Input) {
 	for i, in := range ins {
 		ob, crash := runDial(in)
 		dist["local:"+in.Proto]++
+		if len(in.Before) > 0 {
+			dist["shared-director-instance"]++
+		}
 		dist["outcome:"+ob.Outcome]++
 		inp := in
 		cases = append(cases, hx.Case{ID: i, Kind: "dial", Input: Input{Part: "dial", Dial: &inp}, Obs: ob, Crash: crash, Coq: coqDialCase(i, in, ob)})
